@@ -975,11 +975,7 @@ func callBuiltin(caller *frame, callpos token.Pos, fn *ssa.Builtin, args []value
 			return ""
 		}
 		cells := unsafe.Slice(args[0].(*value), n)
-		b := make([]byte, n)
-		for i := range b {
-			b[i] = cells[i].(byte)
-		}
-		return string(b)
+		return mkStr(append([]value{}, cells...))
 	case "SliceData":
 		sl := args[0].([]value)
 		if cap(sl) == 0 {
